@@ -61,6 +61,9 @@ TABLE = {
  'C06': (MC, 'strict front ends -> read plans judged by TLC (spec/ReadCode.tla) + execution of the Python family',
          'Every generated program (13 types x 2 byte orders x ranks 1-4 with distinct extents and length-1 axes x 12 languages x 3 path modes) is produced by the real readcode(); foreign-language snippets must be accepted by a strict per-language front end (anything else is not well-formed) and the resulting read plan is judged by TLC: element kind/size from the language type token, byte order token, element count, dimensions (as stored for row-major, reversed for column-major, per-language singleton rules), file offset of every index tuple, complex part layout. Offered/withheld is compared with the TLC table OfferedRows (docs/readcode.rst) and with readcodelanguages; the path in the code with the requested mode. darr/numpy/numpymemmap/python snippets are executed in a subprocess and compared element-wise, with per-snippet file hashes before/after, also for empty arrays.',
          'No foreign interpreter exists in the sandbox: the language semantics in spec/ReadCode.tla are a transcription of the documentation (trusted); well-formed means accepted by the front end.', '7 C06'),
+ 'C07': (MC, 'strict ragged front ends -> ragged plans judged by TLC for every k (spec/RaggedReadCode.tla) + execution of darr/numpymemmap',
+         'Each ragged program (9 languages x 13 value types x 7 index types x atom rank 0-3 x layouts with 1, 2, 3, many subarrays incl. zero-length ones) is parsed into index-array plan, values plan, accessor (index origin, axis carrying k, start/end adjustments, end inclusiveness, placeholders, empty-subarray guard and its dimensions) and example (ordinal, k, binding operator); TLC evaluates RaggedFail: both array plans Correct (C06 semantics), Select = exactly subarray k for every k under the language range semantics (what lo:hi means when lo = hi+1), placeholders = atom rank on the right side, empty-value dimensions = atom in the language axis order, example binds the announced existing subarray with a binding operator of that language; offered/withheld against RaggedOfferedRows (incl. the R int64-index allowance); darr and numpymemmap programs are executed for every k with file hashes before/after, also on ragged arrays without values.',
+         'Language range semantics and type tables are transcriptions (trusted); no foreign interpreter available.', '7 C07'),
 }
 NA = {}
 def main():
